@@ -30,6 +30,8 @@ func (x *Exec) callOrdinal(ins ssa.Instruction, callee string) int {
 	// occurrence index of this call among calls to the same callee in the function (static order)
 	fn := ins.Parent()
 	key := fn
+	x.v.mu.Lock()
+	defer x.v.mu.Unlock()
 	m, ok := x.v.callOrdCache[key]
 	if !ok {
 		m = map[ssa.Instruction]int{}
@@ -150,6 +152,7 @@ func (x *Exec) callCommonVals(st *State, cc *ssa.CallCommon, fnv Val, args []Val
 			x.missing(st, "interface method "+name)
 			return x.symbolic(st, cc.Signature().Results(), "res"), false
 		}
+		x.noLockHeld(st, con, name, pos)
 		all := append([]Val{fnv}, args...)
 		names := append([]string{"recv"}, con.Params...)
 		return x.applyContract(st, con, name, names, all, cc.Signature().Results(), con.Results, ins, pos), false
@@ -250,6 +253,7 @@ func (x *Exec) callCommonVals(st *State, cc *ssa.CallCommon, fnv Val, args []Val
 		x.missing(st, "function value "+tname)
 		return x.symbolic(st, cc.Signature().Results(), "res"), false
 	}
+	x.noLockHeld(st, con, tname, pos)
 	all := append([]Val{fnv}, args...)
 	names := append([]string{"self"}, con.Params...)
 	return x.applyContract(st, con, tname, names, all, cc.Signature().Results(), con.Results, ins, pos), false
@@ -346,6 +350,20 @@ func (x *Exec) applyContract(st *State, con *Contract, cname string, pnames []st
 	}
 	if len(con.Postulates) > 0 {
 		x.v.notePostulate(cname)
+	}
+	// separation facts assumed after this call site by the function under verification
+	if x.con != nil && len(st.frames) == 1 {
+		for _, cl := range x.con.After[site] {
+			fe := x.envFor(st)
+			fe.old = pre
+			g, err := fe.evalBool(cl.E)
+			if err != nil {
+				x.errorf("%s: after %s: %v", x.shortFn(x.fn), site, err)
+				continue
+			}
+			st.assume(g)
+			x.v.noteRelies(x.shortFn(x.fn)+" after "+site, []*Clause{cl})
+		}
 	}
 	x.v.noteUse(x.shortFn(x.fn), cname, con)
 	return res
@@ -530,4 +548,13 @@ func (x *Exec) appendBuiltin(st *State, cc *ssa.CallCommon, args []Val) Val {
 		") :pattern ((select " + nc + " " + k + "))))")
 	st.setH(m, ms, store(h, app("sarr", r), nc))
 	return term(r, SSlice, cc.Args[0].Type())
+}
+
+// noLockHeld: C05 L3 / C18 K1 -- no gkvlite lock is held while foreign code runs (file methods,
+// visitors, comparators, callbacks), unless the contract carries the documented exemption.
+func (x *Exec) noLockHeld(st *State, con *Contract, name string, pos token.Pos) {
+	if con.LockExempt || !x.isGhost("locks") {
+		return
+	}
+	x.emit(st, "ghost", "nolock@"+name, eq(st.G("locks"), "emptyLocks"), []string{"C05", "C18"}, "no gkvlite lock is held while foreign code ("+name+") runs", pos)
 }
